@@ -2,6 +2,7 @@ package checks
 
 import (
 	"fmt"
+	"os"
 
 	"github.com/quickfixgo/quickfix"
 
@@ -112,9 +113,20 @@ func c01Configs(quick bool) []sessmc.Config {
 
 func init() {
 	register("C01", core.LevelMC, runC01)
+	variantDefs["C01/persistent"] = func(cfg sessmc.Config) searchSpec {
+		return searchSpec{cfg: cfg, alphabet: c01PersistentAlphabet(), mons: func() []sessmc.Monitor { return []sessmc.Monitor{&c01Mon{}} }, variant: "C01/persistent"}
+	}
 	variantDefs["C01"] = func(cfg sessmc.Config) searchSpec {
 		return searchSpec{cfg: cfg, alphabet: c01Alphabet(), mons: func() []sessmc.Monitor { return []sessmc.Monitor{&c01Mon{}} }, variant: "C01"}
 	}
+}
+
+// c01PersistentAlphabet: the traffic that moves the expected number, with connection cycles and engine restarts
+// on a persistent store (what was delivered before a restart is not delivered again after it).
+func c01PersistentAlphabet() []*sessmc.Event {
+	return []*sessmc.Event{sessmc.EvConnect(), sessmc.EvDisconnect(), sessmc.EvRestart(), sessmc.EvLogon(0, 0, ""), sessmc.EvLogon(2, 0, ""),
+		sessmc.EvIn("D", 0, false), sessmc.EvIn("D", 1, false), sessmc.EvIn("D", 0, true), sessmc.EvIn("0", 0, false),
+		sessmc.EvSeqReset(0, 2, "Y", true), sessmc.EvSeqResetT(0, 3, "", false), sessmc.EvSend(), sessmc.EvFlush(), sessmc.EvIn("5", 0, false)}
 }
 
 func runC01(c *core.Ctx) {
@@ -143,6 +155,35 @@ func runC01(c *core.Ctx) {
 		runSearch(c, sp)
 		if c.Expired() {
 			break
+		}
+	}
+	// persistent stores with restarts (file; SQL on sqlite with sub/location IDs in the session identity)
+	dir, cleanup := core.Scratch("c01p")
+	defer cleanup()
+	tp := ""
+	if tmpl, err := sqliteTemplateDB(); err != nil {
+		c.EngineError("sqlite: " + err.Error())
+	} else {
+		tp = dir + "/template.db"
+		if err := os.WriteFile(tp, tmpl, 0o644); err != nil {
+			c.EngineError(err.Error())
+		}
+	}
+	for _, ini := range []bool{false, true} {
+		for _, sqlStore := range []bool{false, true} {
+			cfg := sessmc.Config{Initiator: ini, BeginString: "FIX.4.2", FileDir: dir, RefreshOnLogon: !ini}
+			if sqlStore {
+				if tp == "" {
+					continue
+				}
+				cfg.SQLTemplate, cfg.SenderSub, cfg.SenderLoc, cfg.TargetSub, cfg.TargetLoc = tp, "SS", "SL", "TS", "TL"
+			}
+			sp := variantDefs["C01/persistent"](cfg)
+			sp.depth = 5
+			if !c.Quick() {
+				sp.depth = 6
+			}
+			runSearch(c, sp)
 		}
 	}
 	runConformance(c)
